@@ -1035,10 +1035,63 @@ def gen_history(seed: int, idx: int) -> dict:
     return hist
 
 
+# --------------------------------------------------------------------------
+# library-internal pending request: the upload negotiation (PeerTransferRequest -> PeerTransferReply by ticket)
+
+N_UPLOAD = {'quick': 170, 'thorough': 20000}
+REPLY_TIMEOUT_S = 30.0             # documented in constants (TRANSFER_REPLY_TIMEOUT); pinned here on purpose
+UNKNOWN_TICKET = 900001
+
+
+def upload_systematic() -> list[dict]:
+    out = []
+
+    def add(note, silent, stale, final, lat=2):
+        out.append({'lat': lat, 'silent': silent, 'stale': stale, 'final': final, 'note': note})
+    add('plain negotiation, allowed', 0, [], {'act': 'allow', 'delay': 4})
+    add('plain negotiation, rejected', 0, [], {'act': 'reject', 'delay': 4})
+    add('no reply at all: back to the queue at the deadline', 0, [], {'act': 'none'})
+    for allowed in (False, True):
+        add(f'first negotiation times out; late reply (allowed={allowed}) for the FIRST ticket during the second one',
+            1, [{'during': 2, 'ticket_of': 1, 'allowed': allowed, 'delay': 64}], {'act': 'allow', 'delay': 192})
+        add(f'late reply (allowed={allowed}) for the first ticket, then the second negotiation is rejected',
+            1, [{'during': 2, 'ticket_of': 1, 'allowed': allowed, 'delay': 8}], {'act': 'reject', 'delay': 128})
+        add(f'late reply (allowed={allowed}) for the first ticket, the second negotiation gets no reply',
+            1, [{'during': 2, 'ticket_of': 1, 'allowed': allowed, 'delay': 64}], {'act': 'none'})
+        add(f'reply (allowed={allowed}) with a ticket that was never issued', 0,
+            [{'during': 1, 'ticket_of': 'unknown', 'allowed': allowed, 'delay': 16}], {'act': 'allow', 'delay': 96})
+    add('two timeouts, late replies for both earlier tickets during the third negotiation', 2,
+        [{'during': 3, 'ticket_of': 1, 'allowed': False, 'delay': 16}, {'during': 3, 'ticket_of': 2, 'allowed': False, 'delay': 48}],
+        {'act': 'allow', 'delay': 128})
+    return out
+
+
+def gen_upload(seed: int, idx: int) -> dict:
+    rng = random.Random(f'{seed}:{ID}:upl:{idx}')
+    silent = rng.choice((0, 1, 1, 1, 1, 2))
+    stale = []
+    n_att = silent + 1
+    for _ in range(rng.choice((0, 1, 1, 1, 2, 2))):
+        during = rng.randrange(1, n_att + 1)
+        earlier = list(range(1, during))
+        tk = rng.choice(earlier + earlier + ['unknown']) if earlier else 'unknown'
+        stale.append({'during': during, 'ticket_of': tk, 'allowed': rng.random() < 0.5,
+                      'delay': rng.choice((0, 1, 4, 16, 64, 256, 640, 1280))})
+    last = max([st['delay'] for st in stale if st['during'] == n_att] + [0])
+    final = {'act': rng.choice(('allow', 'allow', 'reject', 'reject', 'none'))}
+    if final['act'] != 'none':
+        final['delay'] = last + rng.choice((1, 8, 64, 256))
+    return {'lat': rng.choice((2, 3, 4)), 'silent': silent, 'stale': stale, 'final': final,
+            'second_file': rng.random() < 0.3}
+
+
 def cases(tier: str, seed: int) -> list[dict]:
     out = [{'mode': 'sys', 'hist': h} for h in systematic()]
+    out += [{'mode': 'upl', 'plan': pl} for pl in upload_systematic()]
     for i in range(N_RANDOM[tier]):
         out.append({'mode': 'rand', 'seed': seed, 'idx': i})
+    for i in range(N_UPLOAD[tier]):
+        out.append({'mode': 'upl', 'seed': seed, 'idx': i})
     return out
 
 
@@ -1136,6 +1189,8 @@ def run_case(params: dict) -> dict:
     from vf.simnet import ConnPlan
     from vf.world import World, run_world
 
+    if params.get('mode') == 'upl':
+        return run_upload_case(params)
     res = runner.new_result(params.get('case', 0))
     hist = expand(params)
     reqs, segs = hist['requests'], hist['segments']
@@ -1869,4 +1924,204 @@ def run_case(params: dict) -> dict:
                      'events': [ev_brief(i) for i in range(len(hevents))][:8],
                      'outcomes': [{k: v for k, v in rec.items() if k in ('k', 't_call', 't_done', 'outcome', 'exc', 'completed_by', 'model')}
                                   for rec in recs]}
+    return res
+
+
+# --------------------------------------------------------------------------
+# upload negotiation: a reply carrying ticket T only affects the negotiation that sent ticket T
+
+def run_upload_case(params: dict) -> dict:
+    from aioslsk.events import TransferAddedEvent
+    from aioslsk.protocol import messages as M
+    from vf.monitors import safety_net_violations
+    from vf.simloop import settle
+    from vf.simnet import ConnPlan
+    from vf.uploads import make_share, remote_paths
+    from vf.world import World, run_world
+
+    res = runner.new_result(params.get('case', 0))
+    plan = _copy(params['plan']) if 'plan' in params else gen_upload(params['seed'], params['idx'])
+    n_att = plan['silent'] + 1
+    lat = plan['lat'] * TICK
+    obs: dict[str, Any] = {'requests': [], 'replies': [], 'flinks': [], 'edges': []}
+
+    async def main(w: World):
+        rng = random.Random(f"{params.get('seed', 0)}:{params.get('idx', 0)}:share")
+        w.net.planner = lambda node, host, port, attempt: ConnPlan(latency=TICK, seg='whole', seg_lat=(lat, lat))
+        await w.start_server()
+        share, files = make_share(w, 2 if plan.get('second_file') else 1, rng, size_range=(2000, 6000))
+        me = await w.add_client('me', w.make_settings('me', shared=[share]), scan=True)
+        peer = await w.add_peer('dl')
+        rp = remote_paths(me.client)
+        names = sorted(rp.values())
+        fn = names[0]
+        accepted: dict[int, str] = {}
+
+        class Listener:
+            async def on_transfer_state_changed(self, transfer, old, new):
+                obs['edges'].append({'t': round(w.now, 6), 'file': transfer.remote_path, 'old': old.name, 'new': new.name,
+                                     'fail_reason': transfer.fail_reason})
+        listener = Listener()
+
+        def on_added(ev):
+            ev.transfer.state_listeners.append(listener)
+        me.listen(TransferAddedEvent, on_added)
+
+        def send_reply(link, ticket, allowed, reason, kind, attempt):
+            tr = [t for t in me.client.transfers.transfers if t.remote_path == fn]
+            obs['replies'].append({'t': round(w.now, 6), 'ticket': ticket, 'allowed': allowed, 'reason': reason,
+                                   'kind': kind, 'during_attempt': attempt,
+                                   'state_when_sent': tr[0].state.VALUE.name if tr else None})
+            if allowed and kind == 'match':
+                accepted[ticket] = fn
+            link.send(M.PeerTransferReply.Request(ticket, allowed, reason=None if allowed else reason))
+
+        async def script(link, j, msg):
+            mine = sorted([st for st in plan['stale'] if st['during'] == j], key=lambda st: st['delay'])
+            t0 = w.loop.time()
+            events = [(st['delay'], 'stale', st) for st in mine]
+            if j == n_att and plan['final']['act'] != 'none':
+                events.append((plan['final']['delay'], 'final', plan['final']))
+            events.sort(key=lambda e: e[0])
+            for x, (d, kind, item) in enumerate(events):
+                when = t0 + d * TICK
+                if when > w.loop.time():
+                    await asyncio.sleep(when - w.loop.time())
+                if kind == 'stale':
+                    tk = UNKNOWN_TICKET if item['ticket_of'] == 'unknown' else [
+                        r for r in obs['requests'] if r['file'] == fn][item['ticket_of'] - 1]['ticket']
+                    send_reply(link, tk, item['allowed'], f'Stale-{j}-{x}', 'stale', j)
+                else:
+                    send_reply(link, msg.ticket, item['act'] == 'allow', 'Final-reason', 'match', j)
+
+        def on_frame(link, msg):
+            if isinstance(msg, M.PeerTransferRequest.Request) and msg.direction == 1:
+                mine = [r for r in obs['requests'] if r['file'] == msg.filename]
+                obs['requests'].append({'t': round(w.now, 6), 'ticket': msg.ticket, 'file': msg.filename, 'attempt': len(mine) + 1})
+                if msg.filename == fn and len(mine) + 1 <= n_att:
+                    w.spawn('dl', script(link, len(mine) + 1, msg), name='c12-dl-script')
+
+        async def on_link(link):
+            if link.typ != 'F':
+                return
+            raw = await link.read_exactly(4)
+            if raw is None:
+                return                                  # the losing connection of a connect race
+            ticket = int.from_bytes(raw, 'little')
+            obs['flinks'].append({'t': round(w.now, 6), 'ticket': ticket, 'accepted': ticket in accepted})
+            if ticket not in accepted:
+                link.close()
+                return
+            link.send_raw((0).to_bytes(8, 'little'))
+            size = len(files[[k for k, v in rp.items() if v == accepted[ticket]][0]])
+            got = 0
+            while got < size:
+                data = await link.read_some(65536)
+                if data is None:
+                    break
+                got += len(data)
+            link.close()
+        peer.on_frame, peer.on_link = on_frame, on_link
+        link = await peer.dial(me.port, 'P', host=w.net.ip_of('me'))
+        await settle(1.0)
+        link.send(*[M.PeerTransferQueue.Request(n) for n in names])
+        bound = n_att * REPLY_TIMEOUT_S + 45.0
+        t_stop = w.loop.time() + bound
+        while w.loop.time() < t_stop:
+            await settle(1.0)
+            mine = [r for r in obs['requests'] if r['file'] == fn]
+            last = [e for e in obs['edges'] if e['file'] == fn]
+            if last and last[-1]['new'] in ('COMPLETE', 'FAILED'):
+                break
+            if len(mine) > n_att:
+                break                                   # the planned history is over: the next negotiation began
+        await settle(1.0)
+        obs['t_end'] = round(w.now, 6)
+        tr = [t for t in me.client.transfers.transfers if t.remote_path == fn]
+        obs['final_state'] = tr[0].state.VALUE.name if tr else None
+        me.client.transfers  # noqa
+        await w.stop_clients()
+        return fn
+
+    out = run_world(f"{ID}:upl:{params.get('seed', 's')}:{params.get('idx', params.get('case', 0))}", main, wall_timeout=120)
+    if out.inconclusive:
+        res['inconclusive'] = out.inconclusive
+        return res
+    fn = out.result
+    runner.add_obs(res, 'upload_histories')
+    reqs = [r for r in obs['requests'] if r['file'] == fn]
+    edges = [e for e in obs['edges'] if e['file'] == fn and e['t'] <= obs['t_end']]
+    replies = obs['replies']
+
+    def witness(**extra):
+        d = {'plan': plan, 'requests_seen_by_the_downloader': obs['requests'], 'replies_sent': replies,
+             'file_connections': obs['flinks'], 'transfer_edges': edges, 'final_state': obs['final_state']}
+        d.update(extra)
+        return d
+
+    if not reqs:
+        res['inconclusive'] = 'the upload was never negotiated'
+        return res
+    by_reason = {r['reason']: r for r in replies if not r['allowed']}
+    # every edge out of INITIALIZING belongs to the negotiation whose request was sent last before it
+    for e in edges:
+        if e['old'] != 'INITIALIZING':
+            continue
+        cur = [r for r in reqs if r['t'] - lat <= e['t']]
+        if not cur:
+            continue
+        cur = cur[-1]
+        runner.add_obs(res, 'upload_negotiations_judged')
+        own = [r for r in replies if r['ticket'] == cur['ticket'] and r['t'] + lat <= e['t']]
+        deadline = cur['t'] - lat + REPLY_TIMEOUT_S
+        if e['new'] == 'FAILED':
+            src = by_reason.get(e['fail_reason'])
+            if src is None or src['ticket'] != cur['ticket']:
+                runner.violation(res, 'upload-negotiation:completed-by-reply-for-another-ticket', witness=witness(
+                    edge=e, pending=cur, reply=src))
+        elif e['new'] == 'UPLOADING':
+            if not any(r['allowed'] for r in own):
+                runner.violation(res, 'upload-negotiation:completed-by-reply-for-another-ticket', witness=witness(
+                    edge=e, pending=cur))
+        elif e['new'] == 'QUEUED':
+            if e['t'] < deadline - 1.0 and not own:
+                runner.violation(res, 'upload-negotiation:ended-before-its-deadline-without-its-reply', witness=witness(
+                    edge=e, pending=cur, deadline=deadline))
+    for fl in obs['flinks']:
+        ok = any(r['allowed'] and r['ticket'] == fl['ticket'] and r['kind'] == 'match' and r['t'] <= fl['t'] for r in replies)
+        if not ok:
+            runner.violation(res, 'upload-negotiation:file-connection-for-a-ticket-never-accepted', witness=witness(link=fl))
+    # the reply that does answer the pending negotiation takes effect; without one it times out at the deadline
+    final = plan['final']
+    if len(reqs) >= n_att:
+        cur = reqs[n_att - 1]
+        deadline = cur['t'] - lat + REPLY_TIMEOUT_S
+        after = [e for e in edges if e['old'] == 'INITIALIZING' and e['t'] >= cur['t'] - lat]
+        if final['act'] == 'allow':
+            good = any(fl['ticket'] == cur['ticket'] for fl in obs['flinks']) and obs['final_state'] == 'COMPLETE'
+            if not good:
+                runner.violation(res, 'matching-reply-ignored:upload-negotiation', witness=witness(pending=cur))
+        elif final['act'] == 'reject':
+            if not (after and after[0]['new'] == 'FAILED' and after[0]['fail_reason'] == 'Final-reason'):
+                runner.violation(res, 'matching-reply-ignored:upload-negotiation', witness=witness(pending=cur))
+        else:
+            ok = after and after[0]['new'] == 'QUEUED' and abs(after[0]['t'] - deadline) <= 1.0
+            if not ok and not any(v['sig'].startswith('upload-negotiation:') for v in res['violations']):
+                runner.violation(res, 'upload-negotiation:no-timeout-at-the-deadline', witness=witness(pending=cur, deadline=deadline))
+    else:
+        if not res['violations']:
+            runner.violation(res, 'upload-negotiation:not-renegotiated-after-timeout', witness=witness())
+    for r in replies:
+        if r['kind'] == 'stale':
+            runner.add_obs(res, 'stale_replies_sent')
+            if r['state_when_sent'] == 'INITIALIZING':
+                runner.add_obs(res, 'stale_replies_while_negotiation_pending')
+    for sig, detail in safety_net_violations(out):
+        runner.violation(res, 'safety:' + sig, detail=detail, witness=witness())
+    res['csigs'].append('upl|%d|%s|%s|%s' % (
+        plan['silent'], sorted((st['during'], str(st['ticket_of']), st['allowed'], st['delay']) for st in plan['stale']),
+        sorted(final.items()), bool(plan.get('second_file'))))
+    runner.add_cover(res, 'kinds', 'upload-negotiation')
+    res['sample'] = {'params': {k: v for k, v in params.items() if k != 'plan'}, 'plan': plan, 'edges': edges[:12],
+                     'replies': replies, 'file_connections': obs['flinks']}
     return res
